@@ -219,10 +219,6 @@ def history_cases(rng, quick, fm):
         for n in LADDER + extra:
             for where in wheres:
                 for wrap in WRAPS:
-                    if quick and wrap != "top" and not (n in (65, 130) or n in extra[:1]):
-                        continue
-                    if quick and wrap != "top" and rng.random() < 0.5:
-                        continue
                     cases.append(history_case(kind, n, where, wrap))
     for d in [2, 17, 33, fm - 4, fm - 3, fm - 2, fm - 1, fm, fm + 1, fm + 6, 130]:
         cases.append(chain_case(d, fm))
